@@ -1,10 +1,12 @@
 package concretize
 
 import (
+	"encoding/json"
 	"fmt"
 	"regexp"
 
 	"go.flow.arcalot.io/pluginsdk/schema"
+	"verif/harness/catalog"
 )
 
 // build.go: abstract schema AST -> real schema through the public constructors of /repo/schema.
@@ -15,10 +17,10 @@ import (
 // of those and of lists/maps of int64/string; maps with int64/string keys).  A "typed" AST node
 // outside the catalogue is built with the untyped constructor (Built.TypedFallback).
 //
-// STAGE 2 extension point: objects go through NewObjectSchema / NewStructMappedObjectSchema[T]
-// (T from harness/catalog), one-of through NewOneOfStringSchema / NewOneOfIntSchema[T], refs and
-// scopes through NewRefSchema / NewScopeSchema; add arms in build() and, for the typed entry
-// points, node types implementing `typed`.
+// Objects go through NewObjectSchema / NewStructMappedObjectSchema[T] / NewTypedObject[T] (T from
+// harness/catalog), properties through NewPropertySchema (+ Disable, TreatEmptyAsDefaultValue), one-of
+// through NewOneOfStringSchema / NewOneOfIntSchema[any], references and scopes through NewRefSchema /
+// NewScopeSchema (which links the references).
 
 // TypedOps are the typed entry points of a schema, wrapped so that the driver can call them
 // with `any` arguments.  Applicable=false: the argument is not of the entry point's type.
@@ -390,8 +392,158 @@ func (b *builder) build(s *Schema) (schema.Type, typed, error) {
 			b.fallback = true
 		}
 		return schema.NewMapSchema(kt, vt, min, max), nil, nil
+	case "object":
+		return b.object(s)
+	case "oneof":
+		if s.Disc == "int" {
+			types := map[int64]schema.Object{}
+			for _, m := range s.Members {
+				o, err := b.member(m.S)
+				if err != nil {
+					return nil, nil, err
+				}
+				types[m.KeyInt] = o
+			}
+			return schema.NewOneOfIntSchema[any](types, s.Field, s.Inlined), nil, nil
+		}
+		types := map[string]schema.Object{}
+		for _, m := range s.Members {
+			o, err := b.member(m.S)
+			if err != nil {
+				return nil, nil, err
+			}
+			txt, err := TokenText(m.KeyStr, b.e)
+			if err != nil {
+				return nil, nil, err
+			}
+			types[txt] = o
+		}
+		return schema.NewOneOfStringSchema[any](types, s.Field, s.Inlined), nil, nil
+	case "ref":
+		return schema.NewRefSchema(s.ID, nil), nil, nil
+	case "scope":
+		var root *schema.ObjectSchema
+		var others []*schema.ObjectSchema
+		for _, o := range s.Objects {
+			t, _, err := b.object(o)
+			if err != nil {
+				return nil, nil, err
+			}
+			os, ok := t.(*schema.ObjectSchema)
+			if !ok {
+				return nil, nil, fmt.Errorf("scope objects must be plain object schemas")
+			}
+			if o.ID == s.Root {
+				root = os
+			} else {
+				others = append(others, os)
+			}
+		}
+		if root == nil {
+			return nil, nil, fmt.Errorf("scope without its root object %q", s.Root)
+		}
+		return schema.NewScopeSchema(root, others...), nil, nil
 	}
 	return nil, nil, fmt.Errorf("unknown schema kind %q", s.Kind)
+}
+
+func (b *builder) member(s *Schema) (schema.Object, error) {
+	t, _, err := b.build(s)
+	if err != nil {
+		return nil, err
+	}
+	o, ok := t.(schema.Object)
+	if !ok {
+		return nil, fmt.Errorf("one-of member of kind %s is no object", s.Kind)
+	}
+	return o, nil
+}
+
+// DefaultJSON renders the JSON text of a property default from its decoded (raw) form.
+func DefaultJSON(v *Value, e *Embedding) (string, error) {
+	g, err := ToGo(v, e)
+	if err != nil {
+		return "", err
+	}
+	txt, err := json.Marshal(g)
+	if err != nil {
+		return "", fmt.Errorf("default %s has no JSON text: %w", v.Canon(), err)
+	}
+	// the decoded form the specification works with must be what encoding/json gives back
+	var back any
+	if err := json.Unmarshal(txt, &back); err != nil {
+		return "", err
+	}
+	ba, err := FromGo(back, e)
+	if err != nil || ba.Canon() != v.Canon() {
+		return "", fmt.Errorf("default %s is not in decoded-JSON form (decodes to %v)", v.Canon(), back)
+	}
+	return string(txt), nil
+}
+
+func (b *builder) props(s *Schema) (map[string]*schema.PropertySchema, error) {
+	props := map[string]*schema.PropertySchema{}
+	for _, p := range s.Props {
+		t, _, err := b.build(p.Type)
+		if err != nil {
+			return nil, err
+		}
+		var def *string
+		if p.Default.Some {
+			txt, err := DefaultJSON(p.Default.V, b.e)
+			if err != nil {
+				return nil, err
+			}
+			def = &txt
+		}
+		ps := schema.NewPropertySchema(t, nil, p.Required, p.RequiredIf, p.RequiredIfNot, p.Conflicts, def, nil)
+		if p.Disabled {
+			ps.Disable("disabled by the specification")
+		}
+		if p.EmptyIsDefault {
+			ps.TreatEmptyAsDefaultValue()
+		}
+		props[p.Name] = ps
+	}
+	return props, nil
+}
+
+func structObject[T any](id string, props map[string]*schema.PropertySchema, typedCtor bool) (schema.Type, typed) {
+	if typedCtor {
+		t := schema.NewTypedObject[T](id, props)
+		return t, tnode[T]{t}
+	}
+	return schema.NewStructMappedObjectSchema[T](id, props), nil
+}
+
+func (b *builder) object(s *Schema) (schema.Type, typed, error) {
+	props, err := b.props(s)
+	if err != nil {
+		return nil, nil, err
+	}
+	var t schema.Type
+	var n typed
+	switch s.Layout {
+	case "map":
+		return schema.NewObjectSchema(s.ID, props), nil, nil
+	case "wide":
+		t, n = structObject[catalog.Wide](s.ID, props, s.Typed)
+	case "wide_p":
+		t, n = structObject[*catalog.Wide](s.ID, props, s.Typed)
+	case "ptrs":
+		t, n = structObject[catalog.Ptrs](s.ID, props, s.Typed)
+	case "notag":
+		t, n = structObject[catalog.NoTag](s.ID, props, s.Typed)
+	case "sub":
+		t, n = structObject[catalog.Sub](s.ID, props, s.Typed)
+	case "sub_p":
+		t, n = structObject[*catalog.Sub](s.ID, props, s.Typed)
+	case "subptrs":
+		t, n = structObject[catalog.SubPtrs](s.ID, props, s.Typed)
+	default:
+		return nil, nil, fmt.Errorf("unknown layout %q", s.Layout)
+	}
+	return t, n, nil
 }
 
 // Build concretises a schema AST under e.
